@@ -90,6 +90,11 @@ func main() {
 				b++ // (with 5 and 7 workers one preemption is already 3 million executions, more than an hour each)
 			}
 		}
+		if strings.HasPrefix(n, "heightmap-disc/") {
+			// capped at a million executions each (reported as not exhaustive when the cap is reached)
+			jobs = append(jobs, schedrun.Job{Scenario: n, Bound: b, MaxExecs: 1000000})
+			continue
+		}
 		if strings.HasPrefix(n, "dc-interior/") {
 			// the dual-contouring stages spawn up to 25 threads: delay-bounded like the C12 scenarios of the same code
 			jobs = append(jobs, schedrun.Job{Scenario: n, Bound: bound, MaxExecs: 3000000, Delay: true})
